@@ -306,7 +306,18 @@ func (o *orC04) onIterLeave(it *iterRec) {
 		o.firstEval = map[string]time.Duration{}
 		o.evalCount = map[string]int{}
 	}
+	// a pass that found a pending switch or maintenance request does not evaluate the membership
+	// (the switchover procedure lists /recovery for its own purposes)
+	pendingReq := false
 	for _, r := range it.reads {
+		if (r.path == "switch" || r.path == "maintenance") && r.op == "get" && r.err == 0 {
+			pendingReq = true
+		}
+	}
+	for _, r := range it.reads {
+		if pendingReq {
+			break
+		}
 		if r.path == "recovery" && r.op == "children" {
 			for h, since := range o.notReplSince {
 				// the host's own health record must have had time to turn bad (or expire) too:
